@@ -16,6 +16,7 @@ import WS.Model.App
 import WS.Spec.AppTrace
 import WS.Model.Keepalive
 import WS.Spec.KeepaliveSpec
+import WS.Lemmas.AppLost
 namespace WS.Driver.App
 open WS WS.Driver WS.Model.App
 
@@ -239,6 +240,14 @@ def ops : List String → Option String
     match iv.toInt?, parseOptInt to with
     | some iv, some to => some (b2s (Spec.Keepalive.argsOk iv to))
     | _, _ => some "bad-args"
+  | ["s-c15-resumes", rc, run] =>
+    -- the closed form of `C15c.C15_resumes` (network skeleton of a reconnecting run) for one world, or `n/a`
+    match rc.toNat?, parseRun run with
+    | some r, some w =>
+      (match WS.Lemmas.App.resumesOfWorld r w with
+       | some tr => some (traceOut tr)
+       | none => some "n/a")
+    | _, _ => some "bad-world"
   | ["m-app-args", iv, to] =>
     match iv.toInt?, parseOptInt to with
     | some iv, some to => some (b2s (argsAccepted iv to))
